@@ -202,6 +202,7 @@ type Result struct {
 	Err     string `json:"e,omitempty"`
 	Msg     string `json:"m,omitempty"` // panic value / fatal error line
 	Alloc   uint64 `json:"a,omitempty"`
+	Micros  int64  `json:"us,omitempty"` // wall time of the call incl. site attribution
 	Site    *Site  `json:"s,omitempty"`
 }
 
@@ -440,17 +441,24 @@ func ChildMain(targets []Target) error {
 		nv = 1
 	}
 	var ms runtime.MemStats
+	oneCall := os.Getenv("C34_CHILD_ONE_CALL") == "1"
+	calls := 0
 	for k := range inputs {
 		in := &inputs[k]
 		for v := 0; v < nv; v++ {
 			if k == 0 && v < fromVar {
 				continue
 			}
+			if oneCall && calls > 0 {
+				return nil
+			}
+			calls++
 			idx := from + k
 			fmt.Fprintf(prog, "%d %d\n", idx, v) // unbuffered: on disk before the call
 			res := Result{Idx: idx, Variant: v, Outcome: "ok"}
 			runtime.ReadMemStats(&ms)
 			a0 := ms.TotalAlloc
+			t0 := time.Now()
 			func() {
 				defer func() {
 					if p := recover(); p != nil {
@@ -477,6 +485,7 @@ func ChildMain(targets []Target) error {
 				res.Outcome = "overalloc"
 				res.Site = allocSite(func() { _, _ = tg.Fn(in, v) })
 			}
+			res.Micros = time.Since(t0).Microseconds()
 			b, _ := json.Marshal(res)
 			out.Write(append(b, '\n'))
 		}
@@ -501,7 +510,7 @@ type Config struct {
 
 // Stats of a run.
 type Stats struct {
-	Children, Deaths, Timeouts, Skipped int
+	Children, Deaths, Timeouts, Skipped, FlakyDeaths int
 }
 
 // Run executes every input of the corpus against the target in child processes.
@@ -525,10 +534,22 @@ func Run(cfg Config) ([]Result, Stats, error) {
 	}
 	var results []Result
 	from, fromVar := 0, 0
+	single := false // re-run exactly one call alone (a death the traceback does not pin on the code under test)
+	retried := map[[2]int]bool{}
+	next := func(i, v int) (int, int) {
+		if v+1 >= cfg.Variants {
+			return i + 1, 0
+		}
+		return i, v + 1
+	}
 	for spawn := 0; from < n; spawn++ {
 		to := from + cfg.Batch
 		if to > n {
 			to = n
+		}
+		one := "0"
+		if single {
+			to, one = from+1, "1"
 		}
 		tag := fmt.Sprintf("%s-%04d", cfg.Target, spawn)
 		prog := filepath.Join(cfg.Dir, tag+".progress")
@@ -539,7 +560,7 @@ func Run(cfg Config) ([]Result, Stats, error) {
 		cmd.Env = append(os.Environ(),
 			"C34_CHILD_CORPUS="+cfg.Corpus, "C34_CHILD_TARGET="+cfg.Target,
 			"C34_CHILD_FROM="+strconv.Itoa(from), "C34_CHILD_FROM_VARIANT="+strconv.Itoa(fromVar), "C34_CHILD_TO="+strconv.Itoa(to),
-			"C34_CHILD_PROGRESS="+prog, "C34_CHILD_OUT="+outp, "C34_CHILD_AS_LIMIT="+strconv.FormatUint(cfg.ASLimit, 10),
+			"C34_CHILD_ONE_CALL="+one, "C34_CHILD_PROGRESS="+prog, "C34_CHILD_OUT="+outp, "C34_CHILD_AS_LIMIT="+strconv.FormatUint(cfg.ASLimit, 10),
 			"GOTRACEBACK=all")
 		ef, err := os.Create(errp)
 		if err != nil {
@@ -558,6 +579,12 @@ func Run(cfg Config) ([]Result, Stats, error) {
 		}
 		results = append(results, got...)
 		if runErr == nil {
+			if single {
+				single = false
+				from, fromVar = next(from, fromVar)
+				st.FlakyDeaths++
+				continue
+			}
 			from, fromVar = to, 0
 			continue
 		}
@@ -587,11 +614,18 @@ func Run(cfg Config) ([]Result, Stats, error) {
 		if res.Msg == "" {
 			res.Msg = runErr.Error()
 		}
-		results = append(results, res)
-		from, fromVar = li, lv+1
-		if fromVar >= cfg.Variants {
-			from, fromVar = li+1, 0
+		if site == nil && !timedOut && !retried[[2]int{li, lv}] {
+			// the dump does not show the code under test (e.g. the runtime failed to start a thread under
+			// RLIMIT_AS, the kernel killed the child): only a death that repeats when the input is run
+			// alone in a fresh child is attributed to the input
+			retried[[2]int{li, lv}] = true
+			st.Deaths--
+			from, fromVar, single = li, lv, true
+			continue
 		}
+		single = false
+		results = append(results, res)
+		from, fromVar = next(li, lv)
 		if cfg.MaxDeaths > 0 && st.Deaths+st.Timeouts >= cfg.MaxDeaths && from < n {
 			st.Skipped = n - from
 			break
@@ -694,6 +728,7 @@ func Drive(r Reporter, cfg Config, class string, nontrivial func(*Input) bool) e
 	}
 	r.Count(cfg.Target+"_children", int64(st.Children))
 	r.Count(cfg.Target+"_child_deaths", int64(st.Deaths))
+	r.Count(cfg.Target+"_child_deaths_not_reproduced_alone", int64(st.FlakyDeaths))
 	if st.Timeouts > 0 {
 		r.Inconclusive(fmt.Sprintf("%s: %d crashbox children hit the %s watchdog", cfg.Target, st.Timeouts, cfg.Timeout))
 	}
